@@ -214,7 +214,7 @@ def random_run(topology, seed, profile, steps, settings=None, max_circuits=3, go
                 else:
                     w.forge_destroy(rng.choice(list(names) + ["adv"]), rng.choice(names), rng.choice(known))
             elif name == "tready":
-                w.transports_ready(*rng.choice(pend_socks))
+                (w.transport4_ready if rng.random() < 0.4 else w.transports_ready)(*rng.choice(pend_socks))
             elif name == "vanish":
                 w.vanish(rng.choice(alive))
             elif name == "nodedown":
